@@ -25,11 +25,12 @@ import NemoVerif.Lemmas.V1Struct
 import NemoVerif.Lemmas.V1Follow
 import NemoVerif.Lemmas.V1Sub
 import NemoVerif.Lemmas.V1Multi
+import NemoVerif.Lemmas.V1FollowDo
 import NemoVerif.Lemmas.V1Run
 import NemoVerif.Lemmas.V1Mut
 import NemoVerif.Generated.LlmFlowsV1
 namespace NemoVerif.C14
-open NemoVerif.V1Interp NemoVerif.V1Struct NemoVerif.V1Follow NemoVerif.V1Sub NemoVerif.V1Multi NemoVerif.V1Run NemoVerif.V1RunL NemoVerif.V1Mut
+open NemoVerif.V1Interp NemoVerif.V1Struct NemoVerif.V1Follow NemoVerif.V1Sub NemoVerif.V1Multi NemoVerif.V1Run NemoVerif.V1RunL NemoVerif.V1Mut NemoVerif.V1FollowDo
 
 /-- The compiler as the code has it (compile sub-blocks, then annotate every element of a loop body
     with `_next_on_break`/`_next_on_continue` unless an inner loop already did) computes the same
@@ -694,6 +695,70 @@ example :
     let code : List MElem := [{ el := .setE "x" (.lit (.int 1)) 1, label := some "L" }, { el := .runAction "utter" (some "a") "" none }]
     ((slideM 10 code ⟨[], []⟩ 0 0 none).2.map (·.activeLabel)) = [some "L", some "L"] ∧
     proj (slideM 10 code ⟨[], []⟩ 0 0 none).2 = proj code := by
+  decide
+
+
+/-! ## Phase 4 (1b): `next_step_is_flow_statement` for flows WITH subflow calls -/
+
+/-- **next_step_is_flow_statement_do_partial.**
+    FULL STATEMENT (not proved at the level of whole histories): for a dialog flow whose statements include `do`
+    calls of subflows that may themselves wait for the user / a bot message / an action, and every history that follows
+    the flow through its callees, `computeNextSteps` returns the context updates plus the event of the next statement
+    of the INNERMOST running callee, and after a callee's last statement of the statement after the `do`.
+    (What IS proved for blocking callees: `slide_with_subflows_simulates` — every single call / push / wait — and
+    `do_returns_after_call` — the return —, at any nesting depth, at the level of `slideWithSubflows` / the resume pass.)
+    PROVED HERE, for whole histories of any length: the same statement for flows whose callees do NOT block — subflows
+    made of assignments, conditionals, loops and further such calls ("subroutines"), at any nesting depth, with the
+    subflow configs present among the flow configs (`Setup`: the dialog flow first, then subflow configs only, every
+    library body known and non-empty).  `followAllD` is the source-level reference: as `followAll`, with `runD` (run the
+    callee's body in place, continue after the `do`) in place of `execFrom`; it is undefined where a callee would block.
+    Conclusion as in `next_step_is_flow_statement`: the decision is the reference's, or the model's fuel ran out. -/
+theorem next_step_is_flow_statement_do_partial (cfgs : Cfgs) (id : String) (p : Prog) (lib : Lib) (f : Nat) (H : List Event) (S : SS)
+    (hS : Setup cfgs id p lib) (hshape : (match p with | .step (.user _) _ => true | _ => false) = true)
+    (hfollow : followAllD lib p (startIntent p) f { ctx := [], pos := .idle, dec := [] } H = some S) :
+    computeNextSteps true cfgs H = .oof ∨ computeNextSteps true cfgs H = .ok S.dec := by
+  cases p with
+  | step s r =>
+    cases s with
+    | user i0 => exact follow_decidesD hS f H S hfollow
+    | bot i => simp at hshape
+    | exec n ps rk => simp at hshape
+    | doFlow n => simp at hshape
+  | nil => simp at hshape
+  | set k e r => simp at hshape
+  | ite c t e r => simp at hshape
+  | «while» c b r => simp at hshape
+  | brk r => simp at hshape
+  | cont r => simp at hshape
+
+/-- non-vacuity: `main = user hi / do setup / if $n == 1: bot one else: bot other`, `setup = $n = 0 / do inc`, `inc = $n = $n + 1` -/
+def exDoMain : Prog := .step (.user "hi") (.step (.doFlow "setup") (.ite (.bin .eq (.var "n") (.lit (.int 1))) (.step (.bot "one") .nil) (.step (.bot "other") .nil) .nil))
+def exDoSetup : Prog := .set "n" (.lit (.int 0)) (.step (.doFlow "inc") .nil)
+def exDoInc : Prog := .set "n" (.bin .add (.var "n") (.lit (.int 1))) .nil
+def exDoLib : Lib := [("setup", exDoSetup), ("inc", exDoInc)]
+def exDoCfgs : Cfgs := [mkCfg "main" exDoMain, { id := "setup", elems := compile exDoSetup, isSubflow := true },
+  { id := "inc", elems := compile exDoInc, isSubflow := true }]
+
+example : Setup exDoCfgs "main" exDoMain exDoLib := by
+  refine ⟨⟨_, rfl, by simp⟩, ?_⟩
+  intro n q h
+  by_cases h1 : n = "setup"
+  · subst h1
+    simp [exDoLib, List.lookup] at h
+    subst h
+    exact ⟨by decide, { id := "setup", elems := compile exDoSetup, isSubflow := true }, by simp [exDoCfgs, Cfgs.find, mkCfg], rfl⟩
+  · by_cases h2 : n = "inc"
+    · subst h2
+      simp [exDoLib, List.lookup] at h
+      subst h
+      exact ⟨by decide, { id := "inc", elems := compile exDoInc, isSubflow := true }, by simp [exDoCfgs, Cfgs.find, mkCfg], rfl⟩
+    · have e1 : (n == "setup") = false := by simpa using h1
+      have e2 : (n == "inc") = false := by simpa using h2
+      simp [exDoLib, List.lookup, e1, e2] at h
+
+example : (followAllD exDoLib exDoMain "hi" 50 { ctx := [], pos := .idle, dec := [] }
+      [.other "UtteranceUserActionFinished" [], .userIntent "hi"]).map (·.dec)
+    = some [.ctx [("n", .int 1)], .bot "one"] := by
   decide
 
 end NemoVerif.C14
